@@ -100,10 +100,40 @@ func genC04(rng *Rng, workdir string) *engSession {
 	}
 	days := rng.Range(3, 6)
 	s.proj = "none" // no per-step checks while building the image
+	// promised trips that are really flown, so that kept promises (and their cleared-balance deltas in the
+	// update statistics) exist in several shards when the compared update runs
+	type c04trip struct{ f1, f2 flap.VerifFlight }
+	flown := map[int]*c04trip{}
 	for d := 0; d < days; d++ {
 		now := day * 86400
 		s.update(now)
 		for i := range s.trav {
+			if tr := flown[i]; tr != nil {
+				if uint64(tr.f1.Start)/86400 == day {
+					s.submit(i, []flap.VerifFlight{tr.f1}, uint64(tr.f1.Start), true)
+				}
+				if uint64(tr.f2.Start)/86400 == day {
+					s.submit(i, []flap.VerifFlight{tr.f2}, uint64(tr.f2.Start), true)
+				}
+				continue
+			}
+			if p.Promises.Algo != 0 && d <= 1 && rng.Chance(1, 2) {
+				sd := day + uint64(rng.Range(0, 2))
+				dist := 200 + 1500*rng.F01()
+				f1 := mk(sd, uint64(rng.Range(2000, 30000)), 1, 2, dist)
+				f1.End = f1.Start + 3000
+				f2 := mk(sd+1, uint64(rng.Range(2000, 30000)), 2, 1, dist)
+				f2.End = f2.Start + 3000
+				if code, slot := s.propose(i, []flap.VerifFlight{f1, f2}, 0, now+20); code == 0 {
+					if s.make(i, slot, now+30, s.props[slot].VerifVersion()) == 0 {
+						flown[i] = &c04trip{f1, f2}
+						if sd == day {
+							s.submit(i, []flap.VerifFlight{f1}, uint64(f1.Start), true)
+						}
+						continue
+					}
+				}
+			}
 			if rng.Chance(1, 2) {
 				a, b := rng.Intn(nAir), rng.Intn(nAir)
 				s.submit(i, []flap.VerifFlight{mk(day, uint64(rng.Intn(80000)), a, b, 100+9000*rng.F01())}, now+10, !rng.Chance(1, 8))
@@ -178,6 +208,9 @@ func genC04(rng *Rng, workdir string) *engSession {
 		}
 		if o.grounded != ref.grounded || o.travellers != ref.travellers || o.flights != ref.flights || fbits(o.share) != fbits(ref.share) {
 			s.fail("C04", "totals-differ-between-thread-settings", fmt.Sprintf("Threads=%d: grounded %d travellers %d flights %d share %v; Threads=%d: %d %d %d %v", ref.th, ref.grounded, ref.travellers, ref.flights, ref.share, o.th, o.grounded, o.travellers, o.flights, o.share))
+		}
+		if len(ref.cdd)+len(ref.cdays) > 1 {
+			s.stat["c04_cleared_deltas_reported"]++
 		}
 		if fmt.Sprint(o.cdd) != fmt.Sprint(ref.cdd) || fmt.Sprint(o.cdays) != fmt.Sprint(ref.cdays) {
 			s.fail("C04", "cleared-deltas-differ-between-thread-settings", fmt.Sprintf("Threads=%d and Threads=%d report different cleared-balance deltas", ref.th, o.th))
@@ -257,7 +290,7 @@ func runC04(o *Out, rng *Rng, tier string, replay string) {
 	} else if tier == "search" {
 		n = 120
 	}
-	o.sum.Rule = "case = a database image (12-320 travellers whose SHA1 keys are searched so that one shard is crowded and several are empty; a few days of check-ins, promises, closes) on which the same daily update is run, from identical copies, at Threads = 0,1,2,4,8,16; the model replays the history and all six updates (save/restore); table digest, carried administrator state, share and integer totals must be equal across settings and equal to the model's; non-trivial = the update credited somebody and counted flights of more than one traveller; distinct by script hash"
+	o.sum.Rule = "case = a database image (12-320 travellers whose SHA1 keys are searched so that one shard is crowded and several are empty; a few days of check-ins, promises, promised trips that are flown and kept so that cleared-balance deltas are reported from several shards, closes) on which the same daily update is run, from identical copies, at Threads = 0,1,2,4,8,16; the model replays the history and all six updates (save/restore); table digest, carried administrator state, share and integer totals must be equal across settings and equal to the model's; non-trivial = the update credited somebody and counted flights of more than one traveller; distinct by script hash"
 	wd := filepath.Join(o.dir, "dbs")
 	for c := 0; c < n; c++ {
 		s := genC04(rng.Fork(), wd)
